@@ -492,6 +492,11 @@ def _run_task(c, cid, st, tier, timeout_ms, both, seed, t0):
                 except _INTERNAL:
                     raise
                 except Exception as e:
+                    if _ABORT[0] or "PathLimit" in str(e) or "task time limit" in str(e):
+                        # the task's time limit fired inside a native call (e.g. a z3 ctypes call wraps the alarm into ctypes.ArgumentError): undecided, never a violation
+                        ctx.undecided(f"{cid}::supported-subset", f"PathLimit: task time limit ({type(e).__name__})", kind="subset")
+                        obls.extend(o.to_json() for o in ctx.obligations)
+                        break
                     if not getattr(e, "_from_target", False):
                         raise HarnessError(f"{type(e).__name__}: {e}\n{traceback.format_exc()}")
                     # an exception the contract does not allow: failed implicit safety obligation
@@ -564,9 +569,12 @@ def replay_one(cid, st, values, obligation_name):
         except _INTERNAL as e:
             err = f"{type(e).__name__}: {e}"
         except Exception as e:
-            if not getattr(e, "_from_target", False):
+            if _ABORT[0] or "PathLimit" in str(e) or "task time limit" in str(e):
+                err = f"PathLimit: task time limit ({type(e).__name__})"
+            elif not getattr(e, "_from_target", False):
                 raise HarnessError(f"{type(e).__name__}: {e}\n{traceback.format_exc()}")
-            failed.append({"name": f"{cid}::no-unexpected-exception", "detail": f"{type(e).__name__}: {e}"})
+            else:
+                failed.append({"name": f"{cid}::no-unexpected-exception", "detail": f"{type(e).__name__}: {e}"})
     for o in ctx.obligations:
         if o.status == "failed":
             failed.append({"name": o.name, "detail": o.detail})
